@@ -141,6 +141,8 @@ func normOut(b []byte, err error) string {
 	return fmt.Sprintf("out:%x", h[:8])
 }
 
+var c17Fresh int64
+
 func c17Calls(r *rand.Rand) []c17Call {
 	var calls []c17Call
 	spdxDoc, _ := gen.SPDXDoc(r, r.Intn(1000), 6)
@@ -175,6 +177,26 @@ func c17Calls(r *rand.Rand) []c17Call {
 	for name, in := range map[string][]byte{"parse-spdx": spdxBytes, "parse-cdx": cdxBytes, "parse-garbage": garbage} {
 		in := in
 		calls = append(calls, c17Call{name, func() string { return digestDoc(reader.New().ParseStream(bytes.NewReader(in))) }})
+	}
+	// schema-valid-looking documents with values the parsers have to reject or repair field by field (malformed
+	// dates, each call its own spellings): whatever a parser remembers about such values is shared between parses
+	for i := 0; i < 4; i++ {
+		bad := []string{"2023-11-15", "15/11/2023 20:34", "yesterday", "2023-13-45T99:99:99Z", "", "20231115T203458Z", "2023-11-15T20:34:58", "1700080498"}
+		in := gen.RepDocs[0].JSON
+		for _, d := range gen.RepDocs {
+			if strings.Contains(d.JSON, "releaseDate") {
+				in = d.JSON
+			}
+		}
+		tmpl, i := in, i
+		calls = append(calls, c17Call{fmt.Sprintf("parse-spdx-with-malformed-dates-%d", i), func() string {
+			// every call spells its malformed values differently (a value a parser has not met before)
+			doc, n := tmpl, atomic.AddInt64(&c17Fresh, 1)
+			for j, good := range []string{"2023-11-15T20:34:58Z", "2023-11-14T20:34:58Z", "2024-11-15T20:34:58Z"} {
+				doc = strings.ReplaceAll(doc, good, fmt.Sprintf("%s#%d.%d", bad[(2*i+j)%len(bad)], j, n))
+			}
+			return digestDoc(reader.New().ParseStream(strings.NewReader(doc)))
+		}})
 	}
 	calls = append(calls, c17Call{"parse-with-reader-options", func() string {
 		rd := reader.New(reader.WithFormatOptions("k", 1), reader.WithUnserializeOptions(&native.UnserializeOptions{}))
